@@ -341,6 +341,29 @@ fn spawn_async_ao_list_in_task'''),
         }
 ''', ''),
     ],
+    'U4l': [
+        ('stage-drops-errexit-exemption', IN, '''        if !run_in_current_shell {
+            // Make sure that all commands in the pipeline are in the same process group.''', '''        if !run_in_current_shell {
+            cmd_params.suppress_errexit = false;
+            // Make sure that all commands in the pipeline are in the same process group.''') if False else ('stage-drops-errexit-exemption', IN, '''        let pipeline_context = if !run_in_current_shell {
+            // Make sure that all commands in the pipeline are in the same process group.''', '''        let pipeline_context = if !run_in_current_shell {
+            cmd_params.suppress_errexit = false;
+            // Make sure that all commands in the pipeline are in the same process group.'''),
+        ('stdin-stdout-pipes-swapped', IN, '''            cmd_params.open_files.set_fd(OpenFiles::STDIN_FD, reader);
+        }
+        if let Some(Some(writer)) = pipe_writers.pop() {
+            cmd_params.open_files.set_fd(OpenFiles::STDOUT_FD, writer);''', '''            cmd_params.open_files.set_fd(OpenFiles::STDOUT_FD, reader);
+        }
+        if let Some(Some(writer)) = pipe_writers.pop() {
+            cmd_params.open_files.set_fd(OpenFiles::STDIN_FD, writer);'''),
+        ('first-stage-reads-a-pipe', IN, '''        // Push `None` to the readers; it will be popped off by the *first* command, which will
+        // mean that command gets its stdin from the execution parameters' current stdin.
+        pipe_readers.push(None);''', ''),
+        ('lastpipe-ignores-job-control', IN, '''                && shell.options().run_last_pipeline_cmd_in_current_shell
+                && !shell.options().enable_job_control);''', '''                && shell.options().run_last_pipeline_cmd_in_current_shell);'''),
+        ('second-stage-own-process-group', IN, 'if current_pipeline_index > 0 {\n                cmd_params.process_group_policy', 'if current_pipeline_index > 1 {\n                cmd_params.process_group_policy'),
+        ('one-pipe-too-few', IN, 'for _ in 0..(pipeline_len - 1) {', 'for _ in 0..(pipeline_len - 2) {'),
+    ],
     'U5': [
         ('sub-becomes-add', AR, 'Ok(left.wrapping_sub(right))', 'Ok(left.wrapping_add(right))'),
         ('lt-becomes-le', AR, 'Ok(bool_to_i64(left < right))', 'Ok(bool_to_i64(left <= right))'),
